@@ -1,5 +1,5 @@
 import DL.Model.CFRules
-import DL.Lemmas.CFSound7
+import DL.Lemmas.CFSound8
 
 /-!
 # C10 — no-unreachable never flags a statement that can execute
@@ -50,15 +50,28 @@ theorem flagHere_sound (info : Info) (s : Stmt) (p : Nat) (h : p ∈ flagHere in
   · rw [if_neg hc] at h; cases h
 
 /-- **C10 on the fragment `inF`** (PARTIAL: the full statement above quantifies over all programs).
-Fragment: scripts whose statements are expression/declaration statements without nested functions, blocks, `if`/`else`,
-`while`, `do-while`, `for`, `for-in/of`, unlabelled `break`/`continue`, `return`, `throw`, nested to any depth, with
-pairwise distinct statement positions.  For every such script, every statement reported by `no-unreachable` is
-unreachable in the reference semantics.  Missing from the fragment: `switch`, `try`, labels, nested functions. -/
+Fragment (`DL.Lemmas.CFPos`): scripts whose statements are expression/declaration statements, blocks, `if`/`else`,
+`while`, `do-while`, `for`, `for-in/of`, `switch`, `try`/`catch`/`finally`, labelled statements, `break`/`continue` (with or without label), `return`,
+`throw`, nested to any depth, where every
+expression may contain function scopes (function/arrow expressions and declarations, methods …: parameters, then a body
+block whose statements are again in the fragment), to any depth; with pairwise distinct positions (`positions`: the
+statements, function scopes and function body blocks; the position of an expression/declaration statement may coincide
+with that of a function it starts with).  For every such script, every statement reported by `no-unreachable` is
+unreachable in the reference semantics, both from the start of the script and from the entry of every function in it.
+Outside the fragment: statements nested directly in expressions other than through a function scope (class static
+blocks, `with` bodies: `Kid.stmt`, and `Kid.block` other than a function or catch body), and module items. -/
 theorem C10_partial (ss : List Stmt) (hf : (stmtsOfList ss).inF = true) (hnd : (stmtsOfList ss).positions.Nodup) (p : Nat)
     (hp : p ∈ Program.flagged { isModule := false, items := ss.map .stmt }
       (analyze { isModule := false, items := ss.map .stmt })) :
     Program.reachable { isModule := false, items := ss.map .stmt } p = false :=
   script_flagged_unreachable ss hf hnd p hp
+
+/-- **C10 on the fragment, whole programs**: the same for a module or script whose items are statements of the fragment and
+module declarations (`import`/`export` …) whose expressions are in the fragment (`itemsInF`), with pairwise distinct
+positions (`itemsPositions`). -/
+theorem C10_fragment (prog : Program) (hf : itemsInF prog.items = true) (hnd : (itemsPositions prog.items).Nodup) (p : Nat)
+    (hp : p ∈ prog.flagged (analyze prog)) : prog.reachable p = false :=
+  program_flagged_unreachable prog hf hnd p hp
 
 /-- non-vacuity: `while (true) { if (x) { return; } }  foo();` — in the fragment, positions distinct, and `foo()` IS
 flagged (so the hypothesis of `C10_partial` is met by a real flagged statement) -/
@@ -68,6 +81,73 @@ example :
       .simple 36 .exprStmt (.cons (.expr .other .nil) .nil)]
     (stmtsOfList ss).inF = true ∧ (stmtsOfList ss).positions.Nodup ∧
     Program.flagged { isModule := false, items := ss.map .stmt } (analyze { isModule := false, items := ss.map .stmt }) = [36] := by
+  decide
+
+/-- non-vacuity with a nested function: `function f() { return 1; foo(); }` — the function scope shares position 0 with
+the declaration statement; `foo()` (25) inside the function IS flagged, and it is reachable neither from the script
+start nor from the function entry, while `return 1` (15) is reachable from the function entry -/
+example :
+    let body : Stmts := .cons (.ret 15 (.cons (.expr .other .nil) .nil)) (.cons (.simple 25 .exprStmt (.cons (.expr .other .nil) .nil)) .nil)
+    let ss : List Stmt := [.simple 0 (.fnDecl "f") (.cons (.fnScope 0 (.cons (.block 13 body) .nil)) .nil)]
+    let prog : Program := { isModule := false, items := ss.map .stmt }
+    (stmtsOfList ss).inF = true ∧ (stmtsOfList ss).positions.Nodup ∧
+    Program.flagged prog (analyze prog) = [25] ∧ prog.reachable 25 = false ∧ prog.reachable 15 = true := by
+  decide
+
+/-- the collision case: an arrow-function expression statement as the body of an `if` —
+`if (x) () => { return 1; foo(); }; else bar();  baz();` — the arrow function (7) shares its position with the
+expression statement; `foo()` (25) is flagged, `baz()` (60) is not (the end recorded under 7 belongs to the function) -/
+example :
+    let body : Stmts := .cons (.ret 15 (.cons (.expr .other .nil) .nil)) (.cons (.simple 25 .exprStmt (.cons (.expr .other .nil) .nil)) .nil)
+    let arrow : Stmt := .simple 7 .exprStmt (.cons (.expr .other (.cons (.fnScope 7 (.cons (.block 13 body) .nil)) .nil)) .nil)
+    let ss : List Stmt := [.ifS 0 (.cons (.expr (.ident "x") .nil) .nil) arrow (some (.simple 45 .exprStmt (.cons (.expr .other .nil) .nil))),
+      .simple 60 .exprStmt (.cons (.expr .other .nil) .nil)]
+    let prog : Program := { isModule := false, items := ss.map .stmt }
+    (stmtsOfList ss).inF = true ∧ (stmtsOfList ss).positions.Nodup ∧
+    Program.flagged prog (analyze prog) = [25] ∧ prog.reachable 60 = true := by
+  decide
+
+/-- labels: `L: { while (true) { break L; }  foo(); }  bar();` — `foo()` (30) is flagged (the loop is only left by
+`break L`, which skips it), `bar()` (40) is not, and is reachable -/
+example :
+    let ss : List Stmt := [.labeled 0 "L" (.block 3 (.cons (.whileS 5 (.cons (.expr .other .nil) .nil) true
+        (.block 18 (.cons (.brk 20 (some "L")) .nil)))
+        (.cons (.simple 30 .exprStmt (.cons (.expr .other .nil) .nil)) .nil))),
+      .simple 40 .exprStmt (.cons (.expr .other .nil) .nil)]
+    let prog : Program := { isModule := false, items := ss.map .stmt }
+    (stmtsOfList ss).inF = true ∧ (stmtsOfList ss).positions.Nodup ∧
+    Program.flagged prog (analyze prog) = [30] ∧ prog.reachable 40 = true ∧ prog.reachable 30 = false := by
+  decide
+
+/-- `switch`: `switch (x) { case 1: return; default: throw e; }  foo();` — `foo()` (50) is flagged; with a `break` in the
+first case it is not -/
+example :
+    let sw (s1 : Stmt) : Stmt := .switchS 0 (.cons (.expr (.ident "x") .nil) .nil)
+      (.cons 13 false (.cons (.expr .other .nil) .nil) (.cons s1 .nil)
+        (.cons 29 true .nil (.cons (.throw 38 (.cons (.expr (.ident "e") .nil) .nil)) .nil) .nil))
+    let foo : Stmt := .simple 50 .exprStmt (.cons (.expr .other .nil) .nil)
+    let prog1 : Program := { isModule := false, items := [sw (.ret 21 .nil), foo].map .stmt }
+    let prog2 : Program := { isModule := false, items := [sw (.brk 21 none), foo].map .stmt }
+    (stmtsOfList [sw (.ret 21 .nil), foo]).inF = true ∧ (stmtsOfList [sw (.ret 21 .nil), foo]).positions.Nodup ∧
+    Program.flagged prog1 (analyze prog1) = [50] ∧ prog1.reachable 50 = false ∧
+    Program.flagged prog2 (analyze prog2) = [] ∧ prog2.reachable 50 = true := by
+  decide
+
+/-- `try`: in `try { return; } catch (e) { foo(); }  bar();` the block cannot throw, so `foo()` (30) and `bar()` (40) are
+both flagged; in `try { f(); return; } catch (e) { }  bar();` nothing is; in `try { f(); } finally { return; }  bar();`
+`bar()` is -/
+example :
+    let call (p : Nat) : Stmt := .simple p .exprStmt (.cons (.expr .other .nil) .nil)
+    let ss1 : List Stmt := [.tryS 0 4 (.cons (.ret 6 .nil) .nil) true 16 (.cons (.expr (.ident "e") .nil) (.cons (.block 26 (.cons (call 30) .nil)) .nil)) false 0 .nil, call 40]
+    let ss2 : List Stmt := [.tryS 0 4 (.cons (call 5) (.cons (.ret 6 .nil) .nil)) true 16 (.cons (.expr (.ident "e") .nil) (.cons (.block 26 .nil) .nil)) false 0 .nil, call 40]
+    let ss3 : List Stmt := [.tryS 0 4 (.cons (call 5) .nil) false 0 .nil true 20 (.cons (.ret 30 .nil) .nil), call 40]
+    let prog (ss : List Stmt) : Program := { isModule := false, items := ss.map .stmt }
+    (stmtsOfList ss1).inF = true ∧ (stmtsOfList ss1).positions.Nodup ∧
+    (stmtsOfList ss2).inF = true ∧ (stmtsOfList ss2).positions.Nodup ∧
+    (stmtsOfList ss3).inF = true ∧ (stmtsOfList ss3).positions.Nodup ∧
+    Program.flagged (prog ss1) (analyze (prog ss1)) = [30, 40] ∧ (prog ss1).reachable 30 = false ∧
+    Program.flagged (prog ss2) (analyze (prog ss2)) = [] ∧ (prog ss2).reachable 40 = true ∧
+    Program.flagged (prog ss3) (analyze (prog ss3)) = [40] := by
   decide
 
 /-! ## regression examples: the defects found and repaired in /repo, decided on the model -/
